@@ -257,6 +257,16 @@ func (e *AffEnv) ofd(v ssa.Value, depth int) Aff {
 			}
 			return sum.add(affAtom("U("+sum.String()+")"), 1)
 		}
+		// len(b[lo:hi]) == hi - lo
+		if b, ok := x.Call.Value.(*ssa.Builtin); ok && b.Name() == "len" {
+			if sl, ok := canon(x.Call.Args[0]).(*ssa.Slice); ok && sl.High != nil {
+				out := e.ofd(sl.High, depth+1)
+				if sl.Low != nil {
+					out = out.add(e.ofd(sl.Low, depth+1), -1)
+				}
+				return out
+			}
+		}
 		if s := e.pureCall(x, depth); s != "" {
 			return affAtom(s)
 		}
